@@ -1,15 +1,32 @@
 ---------------------------- MODULE MC_BlasClamp ----------------------------
 (* C19: the accept / reject decision of the BLAS wrappers for argument values near 2^31.  The buffers of the generated calls have fewer than
    1000 cells, so every footprint computed from an integer argument beyond 10000 in absolute value exceeds them exactly as the true value does:
-   the call is evaluated with such arguments clamped to +-10000 (TLC's integers are 32 bits; the wrapper's own arithmetic must not overflow
+   the call is evaluated with such arguments compressed (see below) (TLC's integers are 32 bits; the wrapper's own arithmetic must not overflow
    either - that is the property).  Only the verdict and the unchanged buffers of rejected calls are used. *)
-EXTENDS Blas, Json, IOUtils
+EXTENDS Blas, Json, IOUtils, FiniteSets
 
 Cases == JsonDeserialize(IOEnv.CASE_FILE)
 IntKeys == {"n", "m", "k", "kl", "ku", "inc", "incx", "incy", "offset", "offsetx", "offsety", "offsetA", "offsetB", "offsetC", "ldA", "ldB", "ldC"}
-Cl(v) == IF v > 10000 THEN 10000 ELSE IF v < -10000 THEN -10000 ELSE v
-Clamp(c) == [c EXCEPT !.a = [k \in DOMAIN c.a |-> IF k \in IntKeys THEN Cl(c.a[k]) ELSE c.a[k]]]
-Out(c) == LET r == Run(Clamp(c)) IN [v |-> r.v, ret |-> r.ret, out |-> [nm \in DOMAIN r.out |-> r.out[nm].d]]
+\* Three compressions of the integers beyond 10000: flat, order preserving, and order preserving with the leading dimensions dominating every other
+\* argument.  A relation BETWEEN two huge arguments (kl + ku + 1 <= ldA, ...) is not preserved by a compression, so the call is "err" only when all
+\* three agree, "ok" only when all three agree, and "undecided" (not judged) otherwise.
+Abs_(v) == IF v < 0 THEN -v ELSE v
+Keys(c) == IntKeys \cap DOMAIN c.a
+Bigs(c) == {Abs_(c.a[k]) : k \in {q \in Keys(c) : Abs_(c.a[q]) > 10000}}
+Rank(v, c) == Cardinality({w \in Bigs(c) : w <= v})
+Sg(v) == IF v < 0 THEN -1 ELSE 1
+Cl(v, k, c, scheme) ==
+    IF Abs_(v) <= 10000 THEN v
+    ELSE IF scheme = 1 THEN Sg(v) * 10000
+    ELSE IF scheme = 3 /\ k \in {"ldA", "ldB", "ldC"} THEN Sg(v) * (100000 + 1000 * Rank(Abs_(v), c))
+    ELSE Sg(v) * (10000 + 1000 * Rank(Abs_(v), c))
+Clamp(c, scheme) == [c EXCEPT !.a = [k \in DOMAIN c.a |-> IF k \in IntKeys THEN Cl(c.a[k], k, c, scheme) ELSE c.a[k]]]
+Out(c) == LET r == Run(Clamp(c, 1))
+              multi == Cardinality({q \in Keys(c) : Abs_(c.a[q]) > 10000}) >= 2
+              v2 == IF multi THEN Run(Clamp(c, 2)).v ELSE r.v
+              v3 == IF multi THEN Run(Clamp(c, 3)).v ELSE r.v
+              v == IF r.v = v2 /\ v2 = v3 THEN r.v ELSE "undecided"
+          IN [v |-> v, ret |-> r.ret, out |-> [nm \in DOMAIN r.out |-> r.out[nm].d]]
 ASSUME JsonSerialize(IOEnv.OUT_FILE, [res |-> [i \in 1..Len(Cases) |-> Out(Cases[i])]])
 
 VARIABLE dummy
